@@ -89,8 +89,12 @@ class C02(Prop):
         return out
 
     def nontrivial(self, case):
-        ka = [canon(x['t'][0]) if isinstance(x, dict) else canon(x) for p in case['a'] for x in p]
-        kb = [canon(x['t'][0]) if isinstance(x, dict) else canon(x) for p in case.get('b', []) for x in p]
+        keyed = case['op'] not in SETOPS
+
+        def key(x):
+            return canon(x['t'][0]) if (keyed and isinstance(x, dict) and x['t']) else canon(x)
+        ka = [key(x) for p in case['a'] for x in p]
+        kb = [key(x) for p in case.get('b', []) for x in p]
         return len(ka) > 0 and (len(set(ka)) < len(ka) or bool(set(ka) & set(kb)))
 
     def shrink(self, case):
